@@ -32,13 +32,11 @@ open Ytk.TableT Ytk.FileCodec
 
 /-- (i) the `.properties` rows of the suffix switches of common.DefaultFile{Decoder,Encoder}Provider, as
     regenerated from common/common.go, are the model's: the suffix selects the properties codec, whose
-    decoder / encoder are props.DecoderFn / props.EncoderFn -/
+    decoder / encoder are props.DecoderFn / props.EncoderFn (the rows of the other suffixes belong to C01) -/
 theorem props_codec_table_matches_model :
     ofSuffix ".properties" = some .properties ∧
     lookupD Generated.fileDecoders Generated.fileDecodersDefault ".properties" = decoderOf ".properties" ∧
-    lookupD Generated.fileEncoders Generated.fileEncodersDefault ".properties" = encoderOf ".properties" ∧
-    pairs Generated.fileDecoders = suffixTable.map (fun p => (p.1, p.2.decoder)) ∧
-    pairs Generated.fileEncoders = suffixTable.map (fun p => (p.1, p.2.encoder)) := by
+    lookupD Generated.fileEncoders Generated.fileEncodersDefault ".properties" = encoderOf ".properties" := by
   decide +kernel
 
 /-- (ii) a `x.properties` file is read with props.DecoderFn and written with props.EncoderFn — the codec
